@@ -91,7 +91,7 @@ impl Server {
             for (k, c) in cmds.iter().enumerate() {
                 if c.starts_with(b"p") { let w = c.split(|b| *b == b' ').next().unwrap(); self.send(format!("file: x\nTitle: y\nACK [50@{k}] {{{}}} failed half-way\n", String::from_utf8_lossy(w)).as_bytes()); return; }
                 if c.starts_with(b"f") { let w = c.split(|b| *b == b' ').next().unwrap(); self.send(format!("ACK [5@{k}] {{{}}} failing\n", String::from_utf8_lossy(w)).as_bytes()); return; }
-                let mut l = b"id: ".to_vec(); l.extend_from_slice(c); l.extend_from_slice(b"\nlist_OK\n"); self.send(&l);
+                let mut l = b"id: ".to_vec(); l.extend_from_slice(c); if c.starts_with(b"b") { l.extend_from_slice(b"\nbinary: 2\nXY"); } l.extend_from_slice(b"\nlist_OK\n"); self.send(&l);
             }
             self.send(b"OK\n"); return;
         }
@@ -122,11 +122,15 @@ impl Server {
         }
         if line.starts_with(b"p") { let w = line.split(|b| *b == b' ').next().unwrap(); self.send(format!("file: x\nTitle: y\nACK [50@0] {{{}}} failed half-way\n", String::from_utf8_lossy(w)).as_bytes()); }
         else if line.starts_with(b"f") { let w = line.split(|b| *b == b' ').next().unwrap(); self.send(format!("ACK [5@0] {{{}}} failing\n", String::from_utf8_lossy(w)).as_bytes()); }
-        else { let mut l = b"id: ".to_vec(); l.extend_from_slice(&line); l.extend_from_slice(b"\nOK\n"); self.send(&l); }
+        else { let mut l = b"id: ".to_vec(); l.extend_from_slice(&line); if line.starts_with(b"b") { l.extend_from_slice(b"\nbinary: 2\nXY"); } l.extend_from_slice(b"\nOK\n"); self.send(&l); }
     }
 }
 
-fn frame_txt(f: &Frame) -> String { f.fields().map(|(k, v)| format!("{k}={v}")).collect::<Vec<_>>().join(",") }
+fn frame_txt(f: &Frame) -> String {
+    let mut v: Vec<String> = f.fields().map(|(k, v)| format!("{k}={v}")).collect();
+    if let Some(b) = f.binary() { v.push(format!("#binary={}", String::from_utf8_lossy(b))); }
+    v.join(",")
+}
 type ReqFut = Pin<Box<dyn Future<Output = String>>>;
 fn outcome<T>(r: Result<T, CommandError>, show: impl Fn(&T) -> String) -> String {
     match r {
